@@ -1066,6 +1066,133 @@ func (t *tracer) reuseCase(g *gen, round int) {
 	t.stats["reuse-"+sk.kind]++
 }
 
+// Several packets are decoded one after the other — tampered and genuine, Data and Interest, through ReadData /
+// ReadInterest / ReadPacket — and every returned object and SigCovered wire is KEPT; only after the last decode are the
+// covered bytes compared with what the signer was given (snapshot taken at signing time) and the validators run.
+// What a decode returned must not depend on later decodes (no sharing with a reused parsing context).
+func (t *tracer) seqCase(g *gen, round int) {
+	initKeys()
+	sp := spec.Spec{}
+	kn := enc.Name{enc.NewStringComponent(8, "k")}
+	type item struct {
+		j        int
+		tampered bool
+		bit      int
+		sk       *signerKind
+		handed   []byte // what the signer was given
+		sig      ndn.Signature
+		cov      enc.Wire
+		covThen  []byte // the covered bytes as returned, copied at once
+		obs      string
+	}
+	var items []*item
+	k := 3 + g.r.Intn(2)
+	for j := 0; j < k; j++ {
+		forInt := (round+j)%2 == 1
+		key := g.rbytes(1 + g.r.Intn(40))
+		var sk *signerKind
+		switch (round + j) % 4 {
+		case 0:
+			if forInt {
+				sk = &signerKind{kind: "sha256int", signer: sec.NewSha256IntSigner(fakeTimer{g})}
+			} else {
+				sk = &signerKind{kind: "sha256", signer: sec.NewSha256Signer()}
+			}
+		case 1:
+			if forInt {
+				sk = &signerKind{kind: "hmacint", signer: sec.NewHmacIntSigner(key, fakeTimer{g}), key: key}
+			} else {
+				sk = &signerKind{kind: "hmac", signer: sec.NewHmacSigner(kn, key, false, time.Hour), key: key}
+			}
+		case 2:
+			ek := ecKeys[g.r.Intn(len(ecKeys))]
+			sk = &signerKind{kind: "ecc", signer: sec.NewEccSigner(false, forInt, time.Hour, ek, kn), ecPub: &ek.PublicKey}
+		default:
+			if forInt {
+				ek := ecKeys[g.r.Intn(len(ecKeys))]
+				sk = &signerKind{kind: "ecc", signer: sec.NewEccSigner(false, true, time.Hour, ek, kn), ecPub: &ek.PublicKey}
+			} else {
+				sk = &signerKind{kind: "rsa", signer: sec.NewRsaSigner(false, false, time.Hour, rsaKey, kn), rsaPub: &rsaKey.PublicKey}
+			}
+		}
+		rec := &recSigner{inner: sk.signer}
+		nm := enc.Name{enc.NewStringComponent(8, "seq"), enc.Component{Typ: 8, Val: g.rbytes(1 + g.r.Intn(6))}}
+		var b []byte
+		if forInt {
+			res, err := sp.MakeInterest(nm, &ndn.InterestConfig{}, enc.Wire{g.rbytes(1 + g.r.Intn(8))}, rec)
+			if err != nil {
+				t.line("SAME seq-%s-builds failed ok", sk.kind)
+				return
+			}
+			b = join(res.Wire)
+		} else {
+			res, err := sp.MakeData(nm, &ndn.DataConfig{}, enc.Wire{g.rbytes(g.r.Intn(8))}, rec)
+			if err != nil {
+				t.line("SAME seq-%s-builds failed ok", sk.kind)
+				return
+			}
+			b = join(res.Wire)
+		}
+		handed := append([]byte{}, rec.handed...)
+		// a tampered twin: one bit of the first name component's value (signed in both packet kinds), or of the signature
+		_, n1, _ := readVar(b)
+		_, n2, _ := readVar(b[n1:])
+		bit := (n1+n2+4)*8 + g.r.Intn(8)
+		if g.r.Intn(2) == 0 {
+			bit = (len(b)-1)*8 + g.r.Intn(8)
+		}
+		m := append([]byte{}, b...)
+		m[bit/8] ^= 1 << uint(bit%8)
+		what := []string{"data", "int"}[map[bool]int{false: 0, true: 1}[forInt]]
+		if g.r.Intn(3) == 0 {
+			what = "pkt"
+		}
+		for _, tw := range []bool{true, false} {
+			in := b
+			if tw {
+				in = m
+			}
+			it := &item{j: j, tampered: tw, bit: bit, sk: sk, handed: handed}
+			it.obs, it.sig, it.cov, _ = decode(what, enc.NewBufferReader(append([]byte{}, in...)))
+			if it.cov != nil {
+				it.covThen = join(it.cov)
+			}
+			items = append(items, it)
+		}
+	}
+	// only now: compare and validate
+	for n, it := range items {
+		later := len(items) - 1 - n
+		if it.obs == "err" || it.obs == "panic" || it.sig == nil {
+			if !it.tampered {
+				t.line("SAME seq-%s-genuine-packet-%d-decodes %s ok", it.sk.kind, it.j, it.obs)
+			}
+			continue
+		}
+		now := join(it.cov)
+		t.line("SAME seq-%s-sigcovered-of-decode-%d-unchanged-by-%d-later-decodes %s %s", it.sk.kind, n, later, hx(now), hx(it.covThen))
+		ok, have := it.sk.validate(it.cov, it.sig)
+		if !have {
+			continue
+		}
+		if it.tampered {
+			outcome := "rejected-validator"
+			if ok {
+				outcome = "accepted"
+			}
+			t.line("TAMPER seq%d.%d %d seq-%s %s", round, it.j, it.bit, it.sk.kind, outcome)
+		} else {
+			t.line("SAME seq-%s-sigcovered-of-decode-%d=handed-to-signer %s %s", it.sk.kind, n, hx(now), hx(it.handed))
+			v := "0"
+			if ok {
+				v = "1"
+			}
+			t.line("VALID %s %s %s %d %s %s", it.sk.kind, hx(it.sk.key), hx(now), int(it.sig.SigType()), hx(it.sig.SigValue()), v)
+		}
+	}
+	t.stats["seq"]++
+}
+
 // The name MakeInterest reports (FinalName) is fed back into MakeInterest: with parameters the stale digest is replaced,
 // without parameters it is dropped; the packet decodes to the name MakeInterest reports in both cases.
 func (t *tracer) finalNameReuse(g *gen, final enc.Name) {
@@ -1381,6 +1508,10 @@ func TestTrace(t *testing.T) {
 		if i%30 == 17 {
 			tr.line("# case %d reuse", i)
 			tr.reuseCase(g, i/30)
+		}
+		if i%20 == 9 {
+			tr.line("# case %d decode sequence", i)
+			tr.seqCase(g, i/20)
 		}
 	}
 	for k, v := range tr.stats {
